@@ -12,9 +12,17 @@
 #include <csignal>
 #include <cstdio>
 #include <cstdlib>
+#include <iostream>
+#include <streambuf>
+#include <stdexcept>
 #include <thread>
 #include <unistd.h>
 #include <vector>
+
+struct NullBuf : std::streambuf {
+    int overflow(int c) override { return c; }
+    std::streamsize xsputn(const char*, std::streamsize n) override { return n; }
+};
 
 static void on_alarm(int) { const char m[] = "WATCHDOG\n"; (void)!write(2, m, sizeof(m) - 1); _exit(3); }
 
@@ -39,6 +47,23 @@ static void pool_rounds(size_t workers, int rounds) {
             CHECK(effect[i] == want);
         }
         CHECK(pool.done() == static_cast<size_t>((r + 1) * (64 + 8)));
+    }
+}
+
+static void pool_throwing() {
+    // jobs that throw std::runtime_error are caught and logged by the pool and still count as run
+    tlx::ThreadPool pool(3);
+    std::vector<long> effect(48, 0);
+    for (int r = 0; r < 10; ++r) {
+        for (size_t i = 0; i < effect.size(); ++i)
+            pool.enqueue([&effect, i]() {
+                effect[i] += 1;
+                if (i % 6 == 0) throw std::runtime_error("tsan job");
+            });
+        pool.loop_until_empty();
+        for (size_t i = 0; i < effect.size(); ++i) CHECK(effect[i] == r + 1);
+        CHECK(pool.done() == static_cast<size_t>((r + 1) * 48));
+        CHECK(pool.idle() <= pool.size());
     }
 }
 
@@ -92,10 +117,15 @@ static void barrier_rounds(size_t n, int gens, bool yield) {
 }
 
 int main() {
+    // the pool logs the exceptions it swallows to std::cerr from several workers at once: discard the text
+    // through a stateless (hence race-free) stream buffer
+    static NullBuf sink;
+    std::cerr.rdbuf(&sink);
     std::signal(SIGALRM, on_alarm);
     alarm(240);
     pool_rounds(1, 20);
     pool_rounds(3, 40);
+    pool_throwing();
     pool_two_waiters();
     semaphore_mixed();
     barrier_rounds<tlx::ThreadBarrierMutex>(3, 200, false);
